@@ -19,7 +19,7 @@ CFG = dict(
     ],
     assumptions=[
         "concurrency: the lock-table clauses lift to all interleavings because LockManager ops are atomic steps (translator-checked); WaitForGraph::add_wait/remove_transaction take their four maps one at a time, so the wait-graph clauses are proved for sequential histories and exercised by the thread stress only",
-        "the deadlock report theorem is about cycles of length <= max_cycle_length (default 100; the property quantifies over <= 8 transactions)",
+        "the deadlock report theorem is for wait-for graphs with at most max_cycle_length transactions (default 100; the property quantifies over <= 8): beyond that the detector deliberately drops long cycles",
     ],
 )
 MANIFEST = dict(
